@@ -44,6 +44,15 @@ def files_in(diff_path):
     return out
 
 
+def demo_features(crate, sid):
+    """cargo features a demonstration needs (stated in its HOWTO)"""
+    if crate == "datafusion-common" and sid == "C52":
+        return ["--features", "sql"]
+    if crate == "datafusion-physical-plan" and sid == "C11":
+        return ["--features", "verif_hooks"]
+    return []
+
+
 def summarize(out):
     lines = [l for l in out.splitlines() if l.startswith("test result:") or " FAILED" in l or l.startswith("error")]
     return lines[-6:]
@@ -82,7 +91,7 @@ def confirm(wt, sd):
     for f in tests:
         c = pkg_of(wt, f)
         stem = os.path.splitext(os.path.basename(f))[0]
-        feats = ["--features", "sql"] if c == "datafusion-common" and sid == "C52" else []
+        feats = demo_features(c, sid)
         cmd = ["cargo", "test", "-q", "-p", c, "--test", stem, "--offline"] + feats
         for attempt in range(3):  # racy demos: any failing run counts
             rc, out, dt = sh(cmd, wt, timeout=1800)
@@ -99,7 +108,7 @@ def confirm(wt, sd):
     for f in tests:
         c = pkg_of(wt, f)
         stem = os.path.splitext(os.path.basename(f))[0]
-        feats = ["--features", "sql"] if c == "datafusion-common" and sid == "C52" else []
+        feats = demo_features(c, sid)
         cmd = ["cargo", "test", "-q", "-p", c, "--test", stem, "--offline"] + feats
         for attempt in range(2):
             rc, out, dt = sh(cmd, wt, timeout=1800)
